@@ -250,6 +250,22 @@ def drivers(r, obs):
                                (gen.Tag("B"),)], bufsize=2).run(flow())
         return (v[1] for v in got if v[0] == "A")
     res.append(("split-run", outcome(d_split3)))
+
+    # the chain as a middle branch among branches that change data and context in place
+    def d_split4(pos):
+        import lena.variables
+        pre, acc, post = build_chain(r)
+        others = [
+            (gen.func("ctx:zz"), lena.variables.Variable("mut", lambda x: x), gen.Tag("M1")),
+            (lena.variables.Variable("mut2", lambda x: x, type="t2"), gen.func("ctx:yy"),
+             gen.Tag("M2")),
+            (gen.func("ctx:xx"), gen.Tag("M3")),
+        ]
+        branches = others[:pos] + [tuple(pre + [acc] + post + [gen.Tag("A")])] + others[pos:]
+        got = lena.core.Split(branches, bufsize=2).run(flow())
+        return (v[1] for v in got if v[0] == "A")
+    for pos in (1, 2, 3):
+        res.append(("split-run-among-mutating-branches", outcome(lambda pos=pos: d_split4(pos))))
     return res
 
 
@@ -506,6 +522,14 @@ class NonCallable(Logged):
     fill_into = 5
 
 
+# falsy elements (an empty container, a __bool__ returning False) must be treated
+# exactly like their truthy twins: "is None" is not "is falsy"
+def _falsy(base, how):
+    if how == "len0":
+        return type(base.__name__ + "Len0", (base,), {"__len__": lambda self: 0})
+    return type(base.__name__ + "BoolFalse", (base,), {"__bool__": lambda self: False})
+
+
 class GenFuncHolder(object):
     """Plain functions have no log; the holder keeps one for them."""
 
@@ -541,7 +565,12 @@ def make_el(kind):
            "fc_noreset": FCNoReset, "fr": FR, "onlyfill": OnlyFill, "run_break": RunBreak,
            "run_plain": RunPlain, "fill_into": FI, "run_and_fc": RunAndFC,
            "fcr": FCR, "run_and_call": RunAndCall, "fi_call_run": FICallRun,
-           "call_runbreak": CallRunBreak, "noncallable": NonCallable}[kind]
+           "call_runbreak": CallRunBreak, "noncallable": NonCallable,
+           "custom_len0": _falsy(Custom, "len0"), "custom_boolfalse": _falsy(Custom, "bool"),
+           "run_plain_len0": _falsy(RunPlain, "len0"), "fcr_boolfalse": _falsy(FCR, "bool"),
+           "callobj_len0": _falsy(CallObj, "len0"), "fc_len0": _falsy(FC, "len0"),
+           "srcobj_boolfalse": _falsy(SrcObj, "bool"),
+           "fill_into_len0": _falsy(FI, "len0")}[kind]
     el = cls()
     return el, lambda: el.log
 
@@ -549,7 +578,9 @@ def make_el(kind):
 KINDS = ["callobj", "srcobj", "function", "genfunction", "list", "range", "custom", "fc",
          "fc_noreset", "fr", "onlyfill", "run_break", "run_plain", "fill_into", "run_and_fc",
          "fcr", "run_and_call", "fi_call_run", "call_runbreak",
-         "noncallable", "none", "int", "str"]
+         "noncallable", "none", "int", "str",
+         "custom_len0", "custom_boolfalse", "run_plain_len0", "fcr_boolfalse", "callobj_len0",
+         "fc_len0", "srcobj_boolfalse", "fill_into_len0"]
 ABSENT = "<absent>"
 NAMES = {
     "Call": [ABSENT, "__call__", "my_call", "fill", "attr5", "nope"],
